@@ -3,6 +3,7 @@ package props
 import (
 	"errors"
 	"fmt"
+	"io"
 	"runtime/debug"
 	"strings"
 	"testing"
@@ -162,10 +163,30 @@ func renderWith(t *testing.T, seed uint64, spec MsgSpec, mode string, k int) ren
 				rr.stack = string(debug.Stack())
 			}
 		}()
-		rr.n, rr.err = b.Msg.WriteTo(rr.sink)
+		// the destination is an io.Writer of whatever dynamic type the caller has: a pointer, a
+		// function adapter, a struct value that holds a slice (the latter two cannot be compared)
+		var w io.Writer = rr.sink
+		switch {
+		case k >= 0 && k%3 == 1:
+			w = writerFunc(rr.sink.Write)
+		case k >= 0 && k%3 == 2:
+			w = sliceSink{s: rr.sink, pad: []byte{0}}
+		}
+		rr.n, rr.err = b.Msg.WriteTo(w)
 	}()
 	return rr
 }
+
+type writerFunc func([]byte) (int, error)
+
+func (f writerFunc) Write(p []byte) (int, error) { return f(p) }
+
+type sliceSink struct {
+	s   *faultSink
+	pad []byte
+}
+
+func (s sliceSink) Write(p []byte) (int, error) { return s.s.Write(p) }
 
 func panicSite(stack string) string {
 	// first frame inside go-mail below the panic
